@@ -281,6 +281,7 @@ func deadlinesMonotonic() []bool {
 	}
 	defer r.Close()
 	r.PushMessage(&auparse.AuditMessage{RecordType: 1300, Sequence: 77})
+	r.Maintain() // whatever a clean-up pass remembers about when it ran is set by now
 	var out []bool
 	seen := map[uintptr]bool{}
 	timeT := reflect.TypeOf(time.Time{})
